@@ -404,6 +404,8 @@ class Recorder(object):
       raise core.TieBroken('instrumentation point Engine._recompute_one_cell is gone')
     self.reft = {}           # summary table id -> per group-by column the table its source column refers to
     self.guard_calls = self.guard_true = 0
+    self.samples = []        # recorded evaluations of helper cells: input and output of the running _updateSummary
+    self.sample_cap = 400
     self.calls = []
     self.ends = []           # per round: the source cells at the end of the round
     self.evals = []          # (index of the round, source table id, helper col id, row id)
@@ -429,9 +431,21 @@ class Recorder(object):
       return ret
 
     def _recompute_one_cell(eng, table, col, row_id, *args, **kwargs):
+      sample = None
       if rec.on and col.col_id.startswith('#summary#'):
         rec.evals.append((len(rec.calls) - 1, table.table_id, col.col_id, row_id))
-      return rec.orig_cell(eng, table, col, row_id, *args, **kwargs)
+        if len(rec.samples) < rec.sample_cap:
+          try:
+            sample = rec.helper_sample_before(eng, table, col, row_id)
+          except Exception:      # pylint: disable=broad-except
+            sample = None
+      ret = rec.orig_cell(eng, table, col, row_id, *args, **kwargs)
+      if sample is not None:
+        try:
+          rec.helper_sample_after(eng, table, col, row_id, sample, ret)
+        except Exception:        # pylint: disable=broad-except
+          pass
+      return ret
     if not hasattr(engine.Engine, 'is_triggered_by_table_action'):
       raise core.TieBroken('Engine.is_triggered_by_table_action is gone')
     self.orig_guard = engine.Engine.is_triggered_by_table_action
@@ -525,6 +539,30 @@ class Recorder(object):
                    'rows': [(rid, self.key_of_row(t, gcols, rid)) for rid in sorted(t.row_ids)],
                    'prev': self.helper_entries(eng, sid, src_id), 'reft': list(self.reft.get(sid, []))}
     return snap
+
+  def helper_sample_before(self, eng, table, col, row_id):
+    sid = col.col_id[len('#summary#'):]
+    info = self.summary_tables(eng).get(sid)
+    if info is None or info[0] != table.table_id or row_id not in table.row_ids:
+      return None
+    _src, gcols, kinds = info
+    t = eng.tables[sid]
+    if any((not table.has_column(c)) or table.get_column(c).is_formula() for c in gcols):
+      return None            # formula group-by cells are computed on demand by the formula itself
+    conv = [t.get_column(c) for c in gcols]
+    cells = [preclassify(k, read_cell(table, c, row_id), co, self.lookup) for k, c, co in zip(kinds, gcols, conv)]
+    return {'sid': sid, 'kinds': kinds, 'gcols': gcols, 'cells': cells,
+            'before': [(rid, self.key_of_row(t, gcols, rid)) for rid in sorted(t.row_ids)]}
+
+  def helper_sample_after(self, eng, table, col, row_id, sample, v):
+    t = eng.tables.get(sample['sid'])
+    if t is None:
+      return
+    raised = type(v).__name__ == 'RaisedException'
+    ids = [] if raised or v is None else [int(v._row_id)] if hasattr(v, '_row_id') else \
+      [int(v)] if isinstance(v, int) else [int(x) for x in v]
+    sample.update(raised=raised, ids=ids, after=[(rid, self.key_of_row(t, sample['gcols'], rid)) for rid in sorted(t.row_ids)])
+    self.samples.append(sample)
 
   def endsnap(self, eng):
     """At the end of a round: per summary table the source rows with the cells the helper formulas read."""
@@ -1077,7 +1115,14 @@ RULE = ('histories of user-action bundles on 1-3 tables (harness/histgen.py, sum
         'that removals cascade over several rounds of the settle loop), records moved or inserted between others (manualSort '
         'differs from row id order), and scripted scenarios; one case = one summary table after one '
         'successful bundle; non-trivial when the bundle touched the source or the summary table (stored actions)')
-TRUSTED = ['Model/Summary.v is hand-written; tied on every run: for every successful bundle and every summary table the '
+TRUSTED = ['coq/gen/Summary_gen.v is REGENERATED from /repo on every run by harness/sum2v.py (fail closed): both _updateSummary '
+           'helper formulas of Table._add_update_summary_col, Table.lookupOrAddDerived, Table.getSummarySourceGroup, '
+           'column._raw_get_without; bridged pointwise to Model/Summary*.v (Props/C12code.v); the translator and its prelude '
+           'Lib/SmPrelude.v are validated differentially on every run against recorded evaluations of the running helper '
+           'formula (translator_differential_cases/fails); the glue is pinned by AST hash (PINS: the settle loop at the end of '
+           'Engine.apply_user_actions, DocModel.setAutoRemove/apply_auto_removes, UserActions.doBulkRemoveRecord, '
+           'get_updates_for_removed_target_rows, lookup_one_record, RecordSet.get_one, the order_by default of lookup_records)',
+           'Model/Summary.v is hand-written; tied on every run: for every successful bundle and every summary table the '
            'summary rows before the settle loop, the entries of the helper column\'s lookup map, the helper cells the engine '
            're-evaluated in each round, and the source cells are read from the running engine; the model (settle_rounds, '
            'vm_compute) must produce exactly the rows, keys, row ids and groups the engine ends with',
@@ -1204,6 +1249,7 @@ def collect(ctx):
     if rec is not None:
       rec.uninstall()
       # Engine.is_triggered_by_table_action (the guard of lookupOrAddDerived): how often it was asked and true
+      ctx._c12_samples = list(rec.samples)
       ctx.extra['guard_calls'] = rec.guard_calls
       ctx.extra['guard_true'] = rec.guard_true
   ctx.log('engine: %d cases from %d runs, %d oracle issues' % (len(cases), len(runs), len(issues)))
@@ -1255,6 +1301,29 @@ def correspond(ctx):
     meta, case = cases[diff[0]]
     ctx.extra['full_recompute_differs_example'] = {'table': meta['table'], 'bundle': meta['bundle'],
                                                    'stream': meta['stream'], 'seed': meta['seed']}
+  # differential validation of the translator (harness/sum2v.py): the generated helper formula on the recorded
+  # inputs of the running one
+  glits = []
+  for smp in getattr(ctx, '_c12_samples', []):
+    try:
+      intern = Interner()
+      cells = [classify(pre, intern) for pre in smp['cells']]
+      def ka(rows):
+        return core.coq_list(['(%s, %s)' % (core.zlit(rid), core.coq_list([atom_lit(atom(x, intern)) for x in key]))
+                              for rid, key in rows])
+      if not all(hashable(x) for _r, key in smp['before'] + smp['after'] for x in key):
+        continue
+      glits.append('((%s, %s, %s), (%s, %s, %s))' % (
+        core.coq_list([KIND_LIT[k] for k in smp['kinds']]), core.coq_list([cell_lit(c) for c in cells]),
+        ka(smp['before']), core.boollit(smp['raised']), core.zlist(smp['ids']), ka(smp['after'])))
+    except SkipCase:
+      continue
+  gbad = ctx.run_cases('gen', ['Grist.Model.Summary', 'Grist.Lib.SmPrelude', 'GristGen.Summary_gen',
+                               'Grist.Proofs.Summary_bridge'], 'check_gen_helper', glits, shard=400)
+  ctx.extra['translator_differential_cases'] = len(glits)
+  ctx.extra['translator_differential_fails'] = len(gbad)
+  for j in gbad[:3]:
+    ctx.broken('translation:generated _updateSummary differs from the running formula', glits[j][:1500])
   # chained summary tables: the rewriting between rounds recomputed by SummaryChain.cleanup_src / cleanup_keys
   chains = [(i, m['chain']) for i, (m, _c) in enumerate(cases) if m.get('chain') is not None]
   for _i, ch in chains:
